@@ -1175,6 +1175,7 @@ fn run_name_bytes(c: &mut Ctx) {
 }
 
 pub fn run(c: &mut Ctx) {
+    crate::aliases::c13(c);
     run_name_bytes(c);
     run_numeric_table(c);
     run_family(c);
